@@ -1,13 +1,16 @@
 package sqlx_test
 
 // Replay driver for property C11 (overlaid into lib/store/sqlx as an external test package by
-// /verif/bin/check; only the public API of sqlx / sqlc is used).
+// /verif/bin/check; only the public API of sqlx / sqlc is used, plus the observation point
+// sqlx.VerifCountEndings of the overlaid export_test.go).
 //
 //   - behaviours of spec/TxGen.tla ("call" ... "return"): the environment steps script a
 //     sqlmock database (faults at Begin / statements / Commit / Rollback) and the transaction
 //     body (statements, then nil / error / panic); the real Transact is run and its result and
 //     the Commit / Rollback calls that reached the database driver are compared with the
-//     "return" step.
+//     "return" step; so are the Commit() / Rollback() calls the manager makes on its transaction
+//     handle (counted by the in-package wrapper of export_test.go: database/sql answers a second
+//     call on a finished *sql.Tx by itself, the driver below never sees it).
 //   - cases of spec/RowMapGen.tla ("query"): the destination type is built from the descriptor,
 //     the result set is served by sqlmock, QueryRow(s)(Partial) is called through a Conn, a
 //     transaction session and a prepared statement, and the destination is compared with the
@@ -101,6 +104,7 @@ type c11Env struct {
 	db     *sql.DB
 	mock   sqlmock.Sqlmock
 	cnt    *c11Counts
+	ends   *sqlx.VerifEndings // Commit()/Rollback() calls made on the Conn's transaction handles (export_test.go)
 	conn   sqlx.Conn
 }
 
@@ -116,6 +120,11 @@ func newC11Env() (*c11Env, error) {
 	e := &c11Env{mockDB: mdb, mock: mock, cnt: &c11Counts{}}
 	e.db = sql.OpenDB(&c11Connector{drv: mdb.Driver(), dsn: dsn, cnt: e.cnt})
 	e.conn = sqlx.NewConnFromDB(e.db) // a fresh Conn has a fresh breaker
+	e.ends = &sqlx.VerifEndings{}
+	if err := sqlx.VerifCountEndings(e.conn, e.ends); err != nil {
+		e.close()
+		return nil, err
+	}
 	return e, nil
 }
 
@@ -302,7 +311,7 @@ func runTxCase(c kit.Case, rep *kit.Reporter) (v kit.Verdict) {
 			}
 		}
 
-		before := *snapshot(env.cnt)
+		before := *snapshot(env)
 		var got error
 		var panicked any
 		func() {
@@ -323,21 +332,27 @@ func runTxCase(c kit.Case, rep *kit.Reporter) (v kit.Verdict) {
 		if s, ok := panicked.(string); ok && strings.HasPrefix(s, "unknown api") {
 			return infra(c, s)
 		}
-		after := *snapshot(env.cnt)
+		after := *snapshot(env)
 		commits, rollbacks := after.commits-before.commits, after.rollbacks-before.rollbacks
 		begins := after.begins - before.begins
+		// the session layer: Commit()/Rollback() calls on the transaction handle, and those among them
+		// that hit a handle already ended
+		ccalls, rcalls, late := after.ccalls-before.ccalls, after.rcalls-before.rcalls, after.late-before.late
 		v.Steps++
 		if (api == "Transact" || api == "CachedTransact") && ctxMode != "live" {
 			return infra(c, "context scenario for an entry point without context")
 		}
 		// handed a dead context the manager may decline before beginning anything
 		// (no Begin at all), or begin, skip the body (which then has not returned nil) and roll back
-		if kit.Bool(ret["mayrefuse"]) && bodyRuns == 0 && commits == 0 && panicked == nil && got != nil &&
-			((begins == 0 && rollbacks == 0) || (beginOK && begins == 1 && rollbacks == 1)) {
+		if kit.Bool(ret["mayrefuse"]) && bodyRuns == 0 && commits == 0 && ccalls == 0 && panicked == nil && got != nil &&
+			!errors.Is(got, sql.ErrTxDone) &&
+			((begins == 0 && rollbacks == 0 && rcalls == 0) || (beginOK && begins == 1 && rollbacks == 1 && rcalls == 1)) {
 			rep.Count("tx.refused-dead-context", 1)
 			return v // the rest of the script assumed a begun transaction
 		}
 		rep.Count("tx.ctx-"+ctxMode, 1)
+		rep.Count("tx.handle-commit-calls", int(ccalls))
+		rep.Count("tx.handle-rollback-calls", int(rcalls))
 
 		// compare with the return step
 		want := kit.Str(ret["result"])
@@ -388,6 +403,30 @@ func runTxCase(c kit.Case, rep *kit.Reporter) (v kit.Verdict) {
 		if int(rollbacks) != kit.Num(ret["rollbacks"]) {
 			note("rollbacks", fmt.Sprintf("%d Rollback reached the database, specification %d", rollbacks, kit.Num(ret["rollbacks"])))
 		}
+		if wantC, wantR := kit.Num(ret["ccalls"]), kit.Num(ret["rcalls"]); int(ccalls) != wantC || int(rcalls) != wantR {
+			a := "ending-calls"
+			switch {
+			case int(ccalls) == wantC && wantR == 1 && rcalls > 1:
+				a = "double-rollback"
+			case int(rcalls) == wantR && wantC == 1 && ccalls > 1:
+				a = "double-commit"
+			case ccalls > 0 && rcalls > 0:
+				a = "commit-and-rollback"
+			}
+			note(a, fmt.Sprintf("the manager called Commit() %d and Rollback() %d times on its transaction (%d of them after the transaction had been ended), specification: %d and %d",
+				ccalls, rcalls, late, wantC, wantR))
+		} else if int(late) != kit.Num(ret["late"]) {
+			note("ending-on-finished-tx", fmt.Sprintf("%d ending calls on an already ended transaction, specification %d", late, kit.Num(ret["late"])))
+		}
+		// the same seen from the caller: a finished *sql.Tx answers a further Commit/Rollback with
+		// sql.ErrTxDone, nothing else in the scripted database does
+		if kit.Num(ret["late"]) == 0 && got != nil && errors.Is(got, sql.ErrTxDone) && len(bad) == 0 {
+			a := "ending-on-finished-tx"
+			if kit.Num(ret["rcalls"]) == 1 {
+				a = "double-rollback"
+			}
+			note(a, "the result wraps sql.ErrTxDone: the transaction was ended a second time ("+got.Error()+")")
+		}
 		if begins > 0 && beginOK && commits+rollbacks == 0 && len(bad) == 0 {
 			note("dangling", "a transaction was begun and neither committed nor rolled back")
 		}
@@ -426,10 +465,11 @@ func c11ResultText(class string) string {
 	return class
 }
 
-type c11Snap struct{ begins, commits, rollbacks int32 }
+type c11Snap struct{ begins, commits, rollbacks, ccalls, rcalls, late int32 }
 
-func snapshot(c *c11Counts) *c11Snap {
-	return &c11Snap{c.begins.Load(), c.commits.Load(), c.rollbacks.Load()}
+func snapshot(e *c11Env) *c11Snap {
+	return &c11Snap{e.cnt.begins.Load(), e.cnt.commits.Load(), e.cnt.rollbacks.Load(),
+		e.ends.Commits.Load(), e.ends.Rollbacks.Load(), e.ends.Late.Load()}
 }
 
 // ---------------------------------------------------------------- row mapping
@@ -442,10 +482,16 @@ var c11Scalars = []reflect.Type{
 	reflect.TypeOf(int32(0)), reflect.TypeOf(uint16(0)),
 }
 
+// c11TagTokens renders the tokens of spec/RowMap.tla's tag model: a column id is the column's name,
+// 0 an empty element, 8 and 9 are options (the spelling lib/store/builder uses).
+var c11TagTokens = map[int]string{0: "", 8: "type=varchar", 9: "length=255"}
+
 type c11Shape struct {
 	prim   bool
 	nf     int
 	tagged bool
+	tagsp  string   // the specification's name of the tag spelling ("plain", "opts", "comma", "mixed")
+	tags   []string // text of the db tag of leaf field i (index i-1), rendered from the specification's tokens
 	emb    string
 	embn   int // leaf fields inside the embedded struct (the last embn of nf)
 	ptrs   map[int]bool
@@ -464,7 +510,7 @@ func fieldFor(sh *c11Shape, i int) reflect.StructField {
 	}
 	f := reflect.StructField{Name: fmt.Sprintf("F%d", i), Type: t}
 	if sh.tagged {
-		f.Tag = reflect.StructTag(fmt.Sprintf(`db:"%s"`, c11ColNames[i]))
+		f.Tag = reflect.StructTag(fmt.Sprintf(`db:"%s"`, sh.tags[i-1]))
 	}
 	return f
 }
@@ -482,6 +528,27 @@ func buildShape(st kit.M) (sh *c11Shape, err error) {
 	}
 	for _, p := range kit.List(st["ptrs"]) {
 		sh.ptrs[kit.Num(p)] = true
+	}
+	if sh.tagged {
+		sh.tagsp = kit.Str(st["tagsp"])
+		for _, tg := range kit.List(st["tags"]) {
+			var parts []string
+			for k, tok := range kit.List(tg) {
+				id := kit.Num(tok)
+				name, isCol := c11ColNames[id]
+				if opt, isOpt := c11TagTokens[id]; isOpt && k > 0 {
+					name, isCol = opt, true
+				}
+				if !isCol {
+					return nil, fmt.Errorf("unknown tag token %d in %s", id, kit.Canon(tg))
+				}
+				parts = append(parts, name)
+			}
+			sh.tags = append(sh.tags, strings.Join(parts, ","))
+		}
+		if len(sh.tags) != sh.nf {
+			return nil, fmt.Errorf("tagged shape with %d fields carries %d tags", sh.nf, len(sh.tags))
+		}
 	}
 	if sh.prim {
 		sh.elem = c11Scalars[(kit.Num(kit.List(st["cols"])[0])+len(sh.dest))%len(c11Scalars)]
@@ -695,6 +762,11 @@ func outcomeAllowed(o c11Outcome, allow []any) bool {
 	return false
 }
 
+// c11TypeText prints a destination type with readable tags (reflect quotes them twice).
+func c11TypeText(t reflect.Type) string {
+	return strings.ReplaceAll(t.String(), `\"`, `'`)
+}
+
 const c11Query = "select c11 from t where id = ?"
 
 // queryVia runs the query API that corresponds to (dest, strict) through one access path.
@@ -760,6 +832,9 @@ func runRowMapCase(c kit.Case, rep *kit.Reporter) (v kit.Verdict) {
 		// fewer columns than leaf fields but not fewer than top-level fields: only the flattened count
 		// makes this an error (vacuity guard of checks/c11.py)
 		rep.Count("rowmap.strict-fewer-than-leaf-fields", 1)
+	}
+	if sh.tagged {
+		rep.Count("rowmap.tags-"+sh.tagsp, 1) // vacuity guard of checks/c11.py
 	}
 	vias := []string{"conn", "tx", "stmt"}
 	if strict {
@@ -905,8 +980,11 @@ func runRowMapCase(c kit.Case, rep *kit.Reporter) (v kit.Verdict) {
 			if pre > 0 {
 				v.Key += ":prefilled"
 			}
+			if sh.tagged && sh.tagsp != "plain" {
+				v.Key += ":tag-options"
+			}
 			v.Msg = fmt.Sprintf("%s via %s into %s of %s (ptr fields %v, %d elements already there), columns %v, data %s: got %s, specification allows %s",
-				api, via, sh.dest, sh.elem, kit.Canon(st["ptrs"]), pre, cols, kit.Canon(st["data"]), o, allowedText(allow))
+				api, via, sh.dest, c11TypeText(sh.elem), kit.Canon(st["ptrs"]), pre, cols, kit.Canon(st["data"]), o, allowedText(allow))
 			return v
 		}
 	}
